@@ -10,6 +10,11 @@ legs
   enum      every history of length <= 4 (quick) / <= 6 (thorough) over
             {send a, send b, recv a, recv b, exchange a->b, exchange b->a}
             for RW(a), RW(b) in {1,2} x {1,2}, same interpreter and oracles
+  history   connection histories on one listening socket: successive and
+            overlapping connections from one client controller whose
+            addresses come back after close + reconnect, either end closing
+            first / later / never, traffic on the live connections; each
+            connection judged on its own (history-enum: all short histories)
   threads   two complete stacks (ContactlessFrontend.connect(llcp=..)) over
             the simulated medium, blocking send/recv application threads,
             Hypothesis-drawn schedule choice lists; monitor fed from the
@@ -31,9 +36,9 @@ LEVEL = "exploration"
 ASSUMPTIONS = [
     "vlib/ref_window.py is a correct reading of the numbered-PDU rules of "
     "LLCP 1.3 section 5.6; vlib/ref_llcp.py of the frame formats",
-    "machine/enum legs: the link is lossless and one exchange is atomic "
-    "(collect, encode, decode, dispatch on one thread); the run loops, "
-    "NFC-DEP and thread schedules are only exercised by leg threads",
+    "machine/enum/history legs: the link is lossless and one exchange is "
+    "atomic (collect, encode, decode, dispatch on one thread); the run "
+    "loops, NFC-DEP and thread schedules are only exercised by leg threads",
     "after an application close() only the prefix property (in order, at "
     "most once) and freedom from crashes/FRMR are judged: messages in flight "
     "at a disconnect are lost by design",
@@ -41,6 +46,9 @@ ASSUMPTIONS = [
     "(vlib/vsched.py)",
     "poll('acks') is judged against its docstring (counter of received "
     "acknowledgements)",
+    "history legs: a connect() refused with reason 0x20 while more connection "
+    "requests were waiting than listen(backlog) keeps is documented "
+    "behaviour (Socket.listen); whether close() returns is not judged here",
 ]
 
 # Confirmed-defect classes the generator/interpreter can avoid by
@@ -100,6 +108,7 @@ class Conn(object):
         self.wouldblock = 0
         self.refused = 0
         self.eof = set()                    # sides where recv() gave None
+        self.base = 0                       # number of the first message
 
     def smiu(self, side):
         """largest message side may send = MIU announced by the other end"""
@@ -190,7 +199,7 @@ def check_prefix(c, side):
 def do_send(c, side, kind, val, ctx, mon):
     smiu = c.smiu(side)
     n = send_size(kind, val, smiu)
-    msg = message(len(c.sent[side]), n)
+    msg = message(c.base + len(c.sent[side]), n)
     after_close = bool(c.closed) or bool(c.eof)
     try:
         ok = c.sock[side].send(msg, nfc.llcp.MSG_DONTWAIT)
@@ -1029,6 +1038,448 @@ def threads_case(draw, tier):
                 st.sampled_from([0.002, 0.005, 0.02, 0.05])), max_size=8)))}
 
 
+# ------------------------------------- leg: connection histories, one listener
+MAXCONN = 10
+
+
+class HConn(object):
+    """one connection of a history: the client socket, the socket accept()
+    returned for it and the per-connection delivery record (a Conn)"""
+
+    def __init__(self, cid, case, cl, sock, box):
+        self.cid = cid
+        self.c = Conn(case)
+        # message k of connection cid carries the stamp (cid + 1, k)
+        self.c.base = 256 * (cid + 1)
+        self.c.sock[cl] = sock
+        self.state = "pending"          # pending -> up
+        self.box = box                  # the connect() call
+        self.addr = None                # client address (after connect)
+        self.reader = {}                # side -> [Box, messages taken]
+        self.closing = {}               # side -> Box of close()
+        self.again = False              # client address used before
+        self.order = []                 # sides in the order they closed
+        self.stale = False              # ... and its accepted socket is open
+
+
+class Hist(object):
+    def __init__(self, case, pair, ctx, mon):
+        self.case, self.pair, self.ctx, self.mon = case, pair, ctx, mon
+        self.cl = case.get("client", "a")
+        self.sv = other(self.cl)
+        self.conns = []
+        self.accepted = []              # sockets returned by accept()
+        self.taken = set()              # ... indices assigned to a connect()
+        self.boxes = []
+        self.srv = None
+        self.dest = None
+        self.backlog = case.get("backlog", 1)
+        self.pending_max = 0            # connect() calls waiting at a time
+        self.said = set()
+
+    def side(self, role):
+        return self.cl if role == "c" else self.sv
+
+    def once(self, name):
+        if name not in self.said:
+            self.said.add(name)
+            self.ctx.label(name)
+
+    def pick(self, k, state="up"):
+        if not self.conns:
+            return None
+        h = self.conns[k % len(self.conns)]
+        return h if h.state == state else None
+
+
+def h_listen(h):
+    case, pair, sv = h.case, h.pair, h.sv
+    srv = pair.socket(sv, DATA_LINK_CONNECTION)
+    h_options(h, srv, sv)
+    if case.get("by_name", True):
+        srv.bind(SERVICE)
+        h.dest = SERVICE
+    else:
+        srv.bind(40)
+        h.dest = 40
+    srv.listen(h.backlog)
+    h.srv = srv
+
+    def acceptor():
+        # the server application: one thread that accepts for ever
+        while True:
+            try:
+                sock = srv.accept()
+            except nfc.llcp.Error:
+                return
+            h.accepted.append(sock)
+    pair.call(acceptor, "acceptor")
+
+
+def h_options(h, sock, side):
+    i = "ab".index(side)
+    sock.setsockopt(nfc.llcp.SO_RCVBUF, h.case["rw"][i])
+    sock.setsockopt(nfc.llcp.SO_RCVMIU, h.case["smiu"][i])
+
+
+def h_progress(h):
+    """bookkeeping after every step: connect() calls that returned, messages
+    the blocking readers have taken, helper threads that died"""
+    npend = sum(1 for hc in h.conns if hc.state == "pending")
+    h.pending_max = max(h.pending_max, npend)
+    for hc in h.conns:
+        if hc.state == "pending" and hc.box.done:
+            if isinstance(hc.box.exc, nfc.llcp.ConnectRefused) and \
+                    hc.box.exc.reason == 0x20 and h.pending_max > h.backlog:
+                # more connection requests arrived between two runs of the
+                # accepting thread than listen(backlog) promised to keep
+                hc.state = "refused"
+                h.once("refused:backlog-full")
+                continue
+            if hc.box.exc is not None:
+                raise unexpected(hc.box.exc, oracle="connection-setup-failed")
+            cli = hc.c.sock[h.cl]
+            hc.addr = cli.getsockname()
+            # the socket accept() returned for this connect(): the one not
+            # yet assigned whose peer is this client socket (an address has
+            # one connecting socket at a time)
+            acc = None
+            for i, a in enumerate(h.accepted):
+                if i not in h.taken and (a.getpeername(), a.getsockname()) \
+                        == (hc.addr, cli.getpeername()):
+                    acc = a
+                    h.taken.add(i)
+                    break
+            if acc is None:
+                raise Violation("connect-without-accept", "connect() number "
+                                "%d returned on %r <-> %r, accept() has not "
+                                "returned a socket for it" % (
+                                    hc.cid, hc.addr, cli.getpeername()))
+            hc.c.sock[h.sv] = acc
+            hc.state = "up"
+            before = [p for p in h.conns[:hc.cid] if p.addr == hc.addr]
+            if before:
+                h.once("client-address-used-again")
+                hc.again = True
+                if any(h.sv not in p.c.closed for p in before):
+                    h.once("earlier-accepted-socket-still-open")
+                    hc.stale = True
+        for side, (box, got) in sorted(hc.reader.items()):
+            h_harvest(h, hc, side, box, got)
+    check_threads(h.pair, h.boxes)
+
+
+def h_harvest(h, hc, side, box, got):
+    c = hc.c
+    while got:
+        c.rcvd[side].append(got.pop(0))
+        check_prefix(c, side)
+    if not box.done or side in c.eof:
+        return
+    after_close = bool(c.closed) or bool(c.eof)
+    if box.exc is not None:
+        if isinstance(box.exc, nfc.llcp.Error) and after_close:
+            c.eof.add(side)
+            return
+        raise unexpected(box.exc, oracle="recv-error")
+    if not after_close:
+        raise Violation("recv-none", "blocking recv() -> None on connection "
+                        "%d which no application has closed" % hc.cid)
+    c.eof.add(side)
+    h.once("read-until-end-of-stream")
+
+
+def h_xfer(h, side):
+    f = h.pair.xfer(side)
+    h_progress(h)
+    return f
+
+
+def h_open(h, sync):
+    if len(h.conns) >= MAXCONN:
+        return
+    cli = h.pair.socket(h.cl, DATA_LINK_CONNECTION)
+    h_options(h, cli, h.cl)
+    dest = h.dest
+    hc = HConn(len(h.conns), h.case, h.cl, cli, None)
+    hc.box = h.pair.call(lambda: cli.connect(dest), "connect-%d" % hc.cid)
+    h.conns.append(hc)
+    h_progress(h)
+    if sync:
+        for _ in range(3 + 2 * len(h.conns)):
+            if hc.state != "pending":
+                break
+            h_xfer(h, h.cl)
+            h_xfer(h, h.sv)
+        else:
+            raise Violation("connection-setup-stuck", "connect() number %d "
+                            "did not return after %d exchange rounds"
+                            % (hc.cid, 3 + 2 * len(h.conns)))
+
+
+def h_close(h, k, role, sync):
+    hc = h.pick(k)
+    side = h.side(role)
+    if hc is None or side in hc.c.closed:
+        return
+    if side in hc.reader and not hc.reader[side][0].done:
+        # another thread of this application sits in recv(): not generated
+        return
+    sock = hc.c.sock[side]
+    if not hc.c.closed and not hc.c.eof:
+        try:
+            if sock.poll("recv", 0):
+                h.once("close-with-unread-data")
+        except nfc.llcp.Error as err:
+            raise unexpected(err, oracle="poll-error")
+    hc.c.closed.add(side)
+    hc.order.append(side)
+    box = h.pair.call(sock.close, "close-%d%s" % (hc.cid, role))
+    hc.closing[side] = box
+    h.boxes.append(box)
+    h_progress(h)
+    if sync:
+        for _ in range(24):
+            if box.done:
+                break
+            if not ((h_xfer(h, side) is not None)
+                    | (h_xfer(h, other(side)) is not None)):
+                break
+
+
+def h_reader(h, k, role):
+    hc = h.pick(k)
+    side = h.side(role)
+    if hc is None or side in hc.reader or side in hc.c.closed \
+            or side in hc.c.eof:
+        return
+    sock = hc.c.sock[side]
+    got = []
+
+    def body():
+        # the way a server thread reads: until the end of the stream
+        while True:
+            m = sock.recv()
+            if m is None:
+                return
+            got.append(bytes(m))
+    box = h.pair.call(body, "reader-%d%s" % (hc.cid, role))
+    hc.reader[side] = [box, got]
+    h_progress(h)
+
+
+def h_recv(h, hc, side, drain=False):
+    if side in hc.reader:
+        return 0
+    return do_recv(hc.c, side, h.ctx, drain=drain)
+
+
+def h_check(h):
+    """exchange until the link is quiet, receive what has arrived: on every
+    connection that no application has closed each accepted message has
+    now been received"""
+    idle = 0
+    for _ in range(400):
+        moved = (h_xfer(h, "a") is not None) + (h_xfer(h, "b") is not None)
+        got = 0
+        for hc in h.conns:
+            if hc.state == "up":
+                for side in "ab":
+                    n0 = len(hc.c.rcvd[side])
+                    h_recv(h, hc, side, drain=True)
+                    got += len(hc.c.rcvd[side]) - n0
+        idle = 0 if (moved or got) else idle + 1
+        if idle >= 3:
+            break
+    else:
+        raise Violation("link-never-quiescent", "controllers still exchange "
+                        "PDUs after 400 rounds without application calls")
+    for hc in h.conns:
+        c = hc.c
+        if hc.state == "pending":
+            raise Violation("connection-setup-stuck", "connect() number %d "
+                            "has not returned and the link is quiet" % hc.cid)
+        if c.closed or c.eof:
+            continue
+        for side in "ab":
+            want = c.sent[other(side)]
+            if c.rcvd[side] != want:
+                raise Violation("message-lost", "connection %d (client "
+                                "address %r): %s received %d of the %d "
+                                "messages accepted at %s, nothing more arrives"
+                                % (hc.cid, hc.addr, side, len(c.rcvd[side]),
+                                   len(want), other(side)))
+
+
+def h_step(h, op):
+    name = op[0]
+    if name == "open":
+        h_open(h, bool(op[1]))
+    elif name == "x":
+        h_xfer(h, op[1])
+    elif name == "check":
+        h_check(h)
+    elif name in ("send", "recv", "close", "reader"):
+        hc = h.pick(op[1])
+        if hc is None:
+            return
+        side = h.side(op[2])
+        if name == "send":
+            do_send(hc.c, side, op[3], op[4], h.ctx, h.mon)
+        elif name == "recv":
+            h_recv(h, hc, side)
+        elif name == "close":
+            h_close(h, op[1], op[2], bool(op[3]))
+        else:
+            h_reader(h, op[1], op[2])
+        h_progress(h)
+    else:
+        raise HarnessError("unknown op %r" % (op,))
+
+
+def run_history(case, ctx):
+    ctx.set_class("history")
+    pair = LlcPair(case["miu"][0], case["miu"][1], bool(case["agf"][0]),
+                   bool(case["agf"][1]))
+    try:
+        mon = ref_window.Monitor()
+
+        def tap(frame):
+            try:
+                mon.on_wire(frame.src, other(frame.src), frame.ref)
+            except ref_window.WindowViolation as w:
+                raise Violation(w.oracle, w.detail)
+        pair.taps.append(tap)
+        h = Hist(case, pair, ctx, mon)
+        h_listen(h)
+        for op in case["ops"]:
+            h_step(h, op)
+        h_check(h)
+        up = [hc for hc in h.conns if hc.state == "up"]
+        nmsg = [len(hc.c.rcvd["a"]) + len(hc.c.rcvd["b"]) for hc in up]
+        live = [hc for hc in up if not (hc.c.closed or hc.c.eof)]
+        again = [hc for hc in up if hc.again
+                 and (hc.c.rcvd["a"] or hc.c.rcvd["b"])]
+        busy_live = [hc for hc in live if hc.c.rcvd["a"] or hc.c.rcvd["b"]]
+        ctx.label("connections:%s" % ("0" if not up else "1" if len(up) == 1
+                                      else "2-3" if len(up) < 4 else "4+"))
+        if again:
+            ctx.label("traffic-after-reconnect-from-same-address")
+        if any(hc.stale and hc.c.rcvd[h.sv] for hc in up):
+            ctx.label("client-data-past-earlier-accepted-socket")
+        if len(busy_live) >= 2:
+            ctx.label("traffic-on-simultaneous-connections")
+        if any(hc.order[:1] == [h.sv] for hc in up):
+            ctx.label("server-closes-first")
+        if any(hc.order == [h.cl, h.sv] for hc in up):
+            ctx.label("server-closes-after-client")
+        if any(hc.order == [h.cl] for hc in up):
+            ctx.label("server-never-closes")
+        if any(not b.done for b in h.boxes):
+            ctx.label("close-pending-at-end")
+        if any(hc.c.wouldblock for hc in up):
+            ctx.label("send-wouldblock")
+        if again or len(busy_live) >= 2:
+            ctx.nontrivial()
+        ctx.note({"connections": len(up), "messages": nmsg,
+                  "addresses": [hc.addr for hc in up]})
+    finally:
+        pair.close()
+
+
+def _tok(draw, t, k):
+    kind = t[0]
+    if kind == "s":
+        return ["send", k, t[1], draw(st.sampled_from([5, 5, 5, 0, 1, 2, 3])),
+                draw(st.integers(0, 2200))]
+    if kind == "r":
+        return ["recv", k, t[1]]
+    if kind == "x":
+        return ["x", "ab"[draw(st.integers(0, 1))] if t[1] == "?" else t[1]]
+    raise HarnessError(t)
+
+
+TALK = ["sc xc rs xs", "ss xs rc xc", "sc ss xc xs rs rc", "sc sc sc xc xc xc "
+        "rs rs rs xs", "ss ss ss xs xs xs rc rc rc xc", "sc", "ss", "sc xc",
+        "ss xs", "rc", "rs", "xc", "xs", "xc xs"]
+
+
+@st.composite
+def history_case(draw, max_ops):
+    cl = draw(st.sampled_from("ab"))
+    xmap = {"c": cl, "s": other(cl)}
+    ops = []
+    later = []                      # close operations put off
+    nopen = 0
+
+    def talk(k):
+        for _ in range(draw(st.integers(0, 5))):
+            # mostly the newest connection, sometimes an older one
+            kk = k if draw(st.integers(0, 3)) else draw(st.integers(0, 9))
+            for t in draw(st.sampled_from(TALK)).split():
+                if t[0] == "x":
+                    ops.append(["x", xmap[t[1]]])
+                else:
+                    ops.append(_tok(draw, t, kk))
+            if draw(st.integers(0, 7)) == 0:
+                ops.append(["check"])
+
+    for _ in range(draw(st.integers(1, 7))):
+        if later and draw(st.booleans()):
+            ops.append(later.pop(draw(st.integers(0, len(later) - 1))))
+        if nopen >= MAXCONN:
+            break
+        k = nopen
+        nopen += 1
+        ops.append(["open", int(draw(st.integers(0, 3)) > 0)])
+        if draw(st.integers(0, 5)) == 0:
+            # the next connection is requested while this one is set up
+            continue
+        talk(k)
+        if draw(st.integers(0, 3)) == 0:
+            ops.append(["reader", k, draw(st.sampled_from("sssc"))])
+            talk(k)
+        end = draw(st.sampled_from(["c", "c", "c", "s", "s", "-"]))
+        if end == "-":
+            continue                # stays open next to the following ones
+        sync = int(draw(st.integers(0, 3)) > 0)
+        ops.append(["close", k, end, sync])
+        far = "s" if end == "c" else "c"
+        when = draw(st.sampled_from(["never", "now", "later", "later"]))
+        if when != "never":
+            talk(k)                 # calls on a connection that has ended
+        if when == "now":
+            ops.append(["close", k, far, sync])
+        elif when == "later":
+            later.append(["close", k, far, 1])
+    while later and draw(st.booleans()):
+        ops.append(later.pop(0))
+    return {"miu": [draw(miu_st()), draw(miu_st())],
+            "agf": [draw(st.booleans()), draw(st.booleans())],
+            "rw": [draw(st.sampled_from([1, 1, 2, 3, 15])) for _ in (0, 1)],
+            "smiu": [draw(st.sampled_from([128, 128, 200, 2175]))
+                     for _ in (0, 1)],
+            "client": cl, "by_name": draw(st.booleans()),
+            "backlog": draw(st.integers(1, 3)), "ops": ops[:max_ops]}
+
+
+H_ALPHABET = [["open", 1], ["close", -1, "c", 1], ["close", 0, "s", 1],
+              ["send", -1, "c", 5, 1], ["send", -1, "s", 5, 1],
+              ["reader", -1, "s"], ["x", "a"], ["x", "b"]]
+
+
+def enum_history(tier, seed):
+    maxlen = 4 if tier == "quick" else 6
+    for rw in ([1, 1], [2, 2]):
+        for n in range(1, maxlen + 1):
+            for seq in itertools.product(range(len(H_ALPHABET)), repeat=n - 1):
+                # a history without a connection has nothing to show
+                yield {"miu": [128, 128], "agf": [False, False], "rw": rw,
+                       "smiu": [128, 128], "client": "a", "by_name": False,
+                       "backlog": 1,
+                       "ops": [H_ALPHABET[0]] + [H_ALPHABET[i] for i in seq]}
+
+
 LEGS = [
     Leg("machine", run=run_machine,
         gen=lambda tier: machine_case(150 if tier == "quick" else 400),
@@ -1048,6 +1499,40 @@ LEGS = [
              "{send a, send b, recv a, recv b, exchange a->b, exchange b->a} "
              "x RW(a),RW(b) in {1,2}; non-trivial = at least one message "
              "accepted."),
+    Leg("history", run=run_history,
+        gen=lambda tier: history_case(160 if tier == "quick" else 400),
+        quick=600, thorough=8000, shards_quick=8, shards_thorough=16,
+        nt_floor=0.3,
+        rule="histories of <=160 (quick) / <=400 (thorough) calls on ONE "
+             "listening socket (controllers pumped by the harness, one "
+             "accepting thread): up to 10 successive and overlapping "
+             "connections from one client controller (connect by name or "
+             "address, the client sockets get the lowest free address, so "
+             "addresses come back after close + reconnect), per connection "
+             "non-blocking send (sizes around the connection MIU) / recv on "
+             "either end, a blocking read-until-end thread, single "
+             "exchanges, 'exchange until quiet and compare' steps; either "
+             "end closes first, the other end at once, later or never; "
+             "link MIU, connection MIU, RW in {1,2,3,15}, aggregation, "
+             "backlog 1-3, client side drawn. Judged per connection: recv() "
+             "results are a prefix of that connection's accepted messages "
+             "(payloads carry connection and message number), complete on "
+             "every connection nobody closed once the link is quiet; window "
+             "monitor on all connections. A server end never sends before "
+             "the client's connect() returned (known finding accept/"
+             "send-before-cc is left to the other legs). non-trivial = a "
+             "message was received on a connection whose client address an "
+             "earlier connection had used, or on two connections that both "
+             "stay open; distinct by case hash."),
+    Leg("history-enum", run=run_history, enum=enum_history, exhaustive=True,
+        shards_quick=4, shards_thorough=16,
+        rule="open + every sequence of <=3 (quick) / <=5 (thorough) further "
+             "steps over {open, client closes newest connection, server "
+             "closes oldest connection, client sends / server sends on the "
+             "newest connection, server reads the newest connection until "
+             "its end, exchange a->b, exchange b->a} (open and close "
+             "exchange until they have returned) x RW 1,1 / 2,2, final "
+             "exchange-until-quiet and compare; non-trivial as in history."),
     Leg("senders-enum", run=run_senders, enum=enum_senders, exhaustive=True,
         shards_quick=8, shards_thorough=16,
         rule="two threads sending 3 messages each (blocking) on one data "
